@@ -232,13 +232,13 @@ def _universe(case):
     return sorted({s["name"] for s in case["segs"]} | {"zz"})
 
 
-def run_c14(job):
-    """job = dict(id, ver, case, short).  Returns the trace record (with its local pool)."""
+def run_c14(job, pool=None):
+    """job = dict(id, ver, case, short).  Returns the trace record (with its pool)."""
     gfapy = _load_gfapy()
     signal.signal(signal.SIGALRM, _alarm)
     case, ver = job["case"], job["ver"]
     text = gfa_text(case, ver)
-    pool = GPool()
+    pool = pool or GPool()
     uni = _universe(case)
     res, exc, gfa = _guard(lambda: gfapy.Gfa(text, version=ver))
     rec = dict(id=job["id"], kind="c14", ver=ver, text=text, short=1 if job["short"] else 0,
@@ -332,13 +332,9 @@ def write_shards(recs, wd, nshards):
 TRACE_CFG = "SPECIFICATION Spec\nINVARIANT Judge\nCHECK_DEADLOCK FALSE\n"
 
 
-def validate(recs, name):
-    """Returns {case id: sorted clauses} for the rejected cases, and the number of states."""
-    good = [r for r in recs if "broken" not in r]
-    if not good:
-        return {}, 0
-    wd = tlc.workdir(name + "-shards")
-    files = write_shards(good, wd, max(NCPU, len(good) // 6000 + 1))     # <= ~6000 cases (~20 MB) per TLC
+def _validate_files(files, n, name):
+    if not files:
+        return {}
     res = tlc.run_sharded("TraceGraphOps", TRACE_CFG, files, name + "-tlc", heap="2g")
     rej = {}
     distinct = 0
@@ -350,20 +346,75 @@ def validate(recs, name):
         for raw in tlc.parse_tuples(out, "REJECT"):
             v = tlc.tla_value(raw)
             rej[v[1]] = sorted(v[2])
-    if distinct != len(good):
-        raise MachineryError("TraceGraphOps consumed %d states, expected %d" % (distinct, len(good)))
-    return rej, distinct
+    if distinct != n:
+        raise MachineryError("TraceGraphOps consumed %d states, expected %d" % (distinct, n))
+    return rej
 
 
-def run_jobs(fn, jobs):
-    if not jobs:
-        return []
-    with MPool(processes=min(NCPU, len(jobs))) as mp:
-        return mp.map(fn, jobs, chunksize=max(1, min(200, len(jobs) // (NCPU * 8) + 1)))
+def validate(recs, name):
+    """Small lists of records held in memory (replay, selftest).
+    Returns {case id: sorted clauses} for the rejected cases, and the number of states."""
+    good = [r for r in recs if "broken" not in r]
+    if not good:
+        return {}, 0
+    wd = tlc.workdir(name + "-shards")
+    files = write_shards(good, wd, NCPU)
+    return _validate_files(files, len(good), name), len(good)
+
+
+def _summary(r):
+    """What the parent process keeps of a record (the records themselves go to the shard file)."""
+    m1 = r.get("m1", {})
+    return dict(id=r["id"], kind=r["kind"], ver=r["ver"], text=r["text"], short=r.get("short", 0),
+                call=r.get("call"), args=r.get("args"), broken=r.get("broken"),
+                m1=dict(res=m1.get("res"), exc=m1.get("exc")),
+                m2=dict(res=r.get("m2", {}).get("res"), exc=r.get("m2", {}).get("exc")),
+                lps=dict(res=r.get("lps", {}).get("res"), paths=r.get("lps", {}).get("paths", [])))
+
+
+def _run_chunk(task):
+    """One worker: run a chunk of jobs with one pool, write the shard file, return summaries."""
+    kind, jobs, path = task
+    fn = run_c14 if kind == "c14" else run_c15
+    pool = GPool()
+    cases, sums = [], []
+    for j in jobs:
+        r = fn(j, pool)
+        sums.append(_summary(r))
+        if "broken" in r:
+            continue
+        c = {k: v for k, v in r.items() if k not in ("pool", "text", "case", "job")}
+        for holder, key in _obs_slots(c):
+            holder[key] = _slim(holder[key])
+        cases.append(c)
+    if cases:
+        with open(path, "w") as fh:
+            json.dump({"pool": pool.items, "cases": cases}, fh)
+    return sums, (path if cases else None), len(cases)
+
+
+def run_and_validate(kind, jobs, name):
+    """Run all jobs (chunks of <= ~5000 cases, one shard file each, written by the workers so that
+    the recordings never accumulate in one process), then validate the shard files with TLC.
+    Returns (summaries, {case id: clauses}, number of validated cases, seconds gfapy, seconds TLC)."""
+    t0 = time.time()
+    wd = tlc.workdir(name + "-shards")
+    nchunks = max(1, min(len(jobs), max(NCPU, len(jobs) // 5000 + 1)))
+    tasks = [(kind, jobs[i::nchunks], os.path.join(wd, "shard%d.json" % i)) for i in range(nchunks)]
+    with MPool(processes=min(NCPU, nchunks)) as mp:
+        res = mp.map(_run_chunk, tasks, chunksize=1)
+    sums = [x for r in res for x in r[0]]
+    files = [r[1] for r in res if r[1]]
+    n = sum(r[2] for r in res)
+    t1 = time.time()
+    rej = _validate_files(files, n, name)
+    order = {j["id"]: k for k, j in enumerate(jobs)}
+    sums.sort(key=lambda x: order[x["id"]])
+    return sums, rej, n, t1 - t0, time.time() - t1
 
 
 def _machinery(recs, rej):
-    bad = [r for r in recs if r.get("broken", "").startswith("load:")]
+    bad = [r for r in recs if (r.get("broken") or "").startswith("load:")]
     if bad:
         raise MachineryError("an enumerated case was not loadable by gfapy: %s -> %s\n%s"
                              % (bad[0]["id"], bad[0]["broken"], "\n".join(bad[0]["text"])))
@@ -415,7 +466,7 @@ def _c14_nontrivial(r):
 
 def _viol(prop, r, clauses, job):
     mine = [c for c in clauses if c.startswith(prop + ".") or c == "foreign"]
-    call = r.get("call", "merge_linear_paths(%s)" % ("merged_name='short'" if r.get("short") else ""))
+    call = r.get("call") or "merge_linear_paths(%s)" % ("merged_name='short'" if r.get("short") else "")
     m1 = r.get("m1", {})
     return dict(family=FAMILY, clauses=mine, all_clauses=clauses, input="\n".join(r["text"]), api=call,
                 version=r["ver"], result=m1.get("res", "") + (":" + m1["exc"] if m1.get("exc") else ""),
@@ -448,16 +499,14 @@ def check_c14(out, tier, seed):
     t0 = time.time()
     jobs = c14_jobs(tier, seed, out)
     t1 = time.time()
-    recs = run_jobs(run_c14, jobs)
-    t2 = time.time()
-    rej, states = validate(recs, "graphops-val14")
+    recs, rej, states, tg, tv = run_and_validate("c14", jobs, "graphops-val14")
     out.add_cov(phase_seconds="enumeration+laws (TLC) %.0f, gfapy %.0f, trace validation (TLC) %.0f on %d cpus"
-                % (t1 - t0, t2 - t1, time.time() - t2, NCPU))
+                % (t1 - t0, tg, tv, NCPU))
     _machinery(recs, rej)
     byid = {j["id"]: j for j in jobs}
     for r in recs:
         cl = rej.get(r["id"])
-        if "broken" in r:
+        if r.get("broken"):
             cl = ["C14.graph"]
         if cl:
             out.violations.append(_viol("C14", r, cl, byid[r["id"]]))
@@ -513,13 +562,13 @@ def mc_multiply(nseg, maxlinks, lawlinks, name):
     return cases, args, list(v[2]), st
 
 
-def run_c15(job):
+def run_c15(job, pool=None):
     """job = dict(id, ver, case, arg = dict(seg (1-based index), k, policy, names), given)."""
     gfapy = _load_gfapy()
     signal.signal(signal.SIGALRM, _alarm)
     case, ver, a = job["case"], job["ver"], job["arg"]
     text = gfa_text(case, ver)
-    pool = GPool()
+    pool = pool or GPool()
     uni = _universe(case)
     seg = case["segs"][a["seg"] - 1]["name"]
     names = list(job["given"][:a["k"] - 1]) if a["names"] == "given" and a["k"] >= 2 else []
@@ -588,16 +637,14 @@ def check_c15(out, tier, seed):
     t0 = time.time()
     jobs = c15_jobs(tier, seed, out)
     t1 = time.time()
-    recs = run_jobs(run_c15, jobs)
-    t2 = time.time()
-    rej, states = validate(recs, "graphops-val15")
+    recs, rej, states, tg, tv = run_and_validate("c15", jobs, "graphops-val15")
     out.add_cov(phase_seconds="enumeration+laws (TLC) %.0f, gfapy %.0f, trace validation (TLC) %.0f on %d cpus"
-                % (t1 - t0, t2 - t1, time.time() - t2, NCPU))
+                % (t1 - t0, tg, tv, NCPU))
     _machinery(recs, rej)
     byid = {j["id"]: j for j in jobs}
     for r in recs:
         cl = rej.get(r["id"])
-        if "broken" in r:
+        if r.get("broken"):
             cl = ["C15.graph"]
         if cl:
             out.violations.append(_viol("C15", r, cl, byid[r["id"]]))
